@@ -133,6 +133,11 @@ func c41token(label string) string {
 	if vfTier() == 0 {
 		ntext = 3
 	}
+	return c41tokenN(label, nt, ntext)
+}
+
+// c41tokenN: one token out of the first nt tag names (start or end tag) and the first ntext texts.
+func c41tokenN(label string, nt, ntext int) string {
 	k := vfChoice(label, 2*nt+ntext)
 	switch {
 	case k < nt:
